@@ -298,6 +298,12 @@ def run(ck: Check):
         "the mono-objective rule is enumerated with scalar objectives (float or size-1 array); vector objectives "
         "only in the Pareto clause",
         "the Pareto relation does not demand completeness of the front",
+        "a reported feasible point whose own objective is missing/NaN is not refused by 'no feasible point is "
+        "strictly better' (the comparison is undefined); the code never reports such a point when another exists",
+        "one OptimizationProblem object per configuration and worker process; its Database is emptied "
+        "(Database.clear) between instances; odd points are stored in one call, even points output by output",
+        "ParetoFront / MultiObjectiveOptimizationResult raise ValueError when the filter keeps no point: nothing is "
+        "reported, accepted by the statement, counted in the evidence",
     ]
 
 
